@@ -97,6 +97,11 @@ func runAudit(def *PropDef, repo, vdir string, seed int64) map[string]interface{
 		}(i, m)
 	}
 	wg.Wait()
+	// seeded changes from independent sub-agents (/verif/seeded): every change that this
+	// property's check reported when it was confirmed must still be reported
+	for _, sr := range runSeeds(exe, def, repo, vdir) {
+		results = append(results, sr)
+	}
 	sort.Slice(results, func(i, j int) bool { return results[i].ID < results[j].ID })
 	counts := map[string]int{}
 	var problems []mutantResult
@@ -199,4 +204,101 @@ func firstLine(s string) string {
 		return s[:i]
 	}
 	return s
+}
+
+// runSeeds re-evaluates the property on every seeded change (seeded/<id>/patch.diff) that
+// lists the property under detected_by in its meta.json. The patch is applied to copies of
+// the touched files and loaded as an overlay; /repo is not touched.
+func runSeeds(exe string, def *PropDef, repo, vdir string) []mutantResult {
+	metas, _ := filepath.Glob(filepath.Join(vdir, "seeded", "*", "meta.json"))
+	sort.Strings(metas)
+	var out []mutantResult
+	for _, mf := range metas {
+		b, err := os.ReadFile(mf)
+		if err != nil {
+			continue
+		}
+		var meta struct {
+			ID         string              `json:"id"`
+			DetectedBy map[string][]string `json:"detected_by"`
+			Files      []string            `json:"files_changed"`
+		}
+		if json.Unmarshal(b, &meta) != nil || len(meta.DetectedBy[def.ID]) == 0 {
+			continue
+		}
+		res := mutantResult{ID: "seed:" + meta.ID, Why: "seeded change " + meta.ID + " (independent sub-agent), expected to be reported by " + def.ID}
+		tmp, err := os.MkdirTemp("", "prunnerlint-seed-*")
+		if err != nil {
+			continue
+		}
+		patch := filepath.Join(filepath.Dir(mf), "patch.diff")
+		okCopy := true
+		for _, f := range meta.Files {
+			src, err := os.ReadFile(filepath.Join(repo, f))
+			if err != nil {
+				continue // a file the patch creates
+			}
+			dst := filepath.Join(tmp, f)
+			if os.MkdirAll(filepath.Dir(dst), 0o755) != nil || os.WriteFile(dst, src, 0o644) != nil {
+				okCopy = false
+			}
+		}
+		cmd := exec.Command("patch", "-p1", "-s", "-f", "-d", tmp, "-i", patch)
+		if o, err := cmd.CombinedOutput(); err != nil || !okCopy {
+			res.Status = "skipped"
+			res.Reported = []string{"patch no longer applies to the current tree: " + firstLine(string(o))}
+			os.RemoveAll(tmp)
+			out = append(out, res)
+			continue
+		}
+		files := map[string]string{}
+		for _, f := range meta.Files {
+			if nb, err := os.ReadFile(filepath.Join(tmp, f)); err == nil {
+				files[filepath.Join(repo, f)] = string(nb)
+			}
+		}
+		os.RemoveAll(tmp)
+		ovf, _ := os.CreateTemp("", "prunnerlint-overlay-*.json")
+		ob, _ := json.Marshal(files)
+		ovf.Write(ob)
+		ovf.Close()
+		outf, _ := os.CreateTemp("", "prunnerlint-obs-*.json")
+		outf.Close()
+		c := exec.Command(exe, "-property", def.ID, "-repo", repo, "-verif", vdir, "-overlay", ovf.Name(), "-obs-out", outf.Name())
+		o, err := c.CombinedOutput()
+		rb, _ := os.ReadFile(outf.Name())
+		os.Remove(ovf.Name())
+		os.Remove(outf.Name())
+		var v struct {
+			Obs   []Ob   `json:"obs"`
+			Error string `json:"error"`
+		}
+		if err != nil || json.Unmarshal(rb, &v) != nil {
+			res.Status = "error"
+			res.Reported = []string{string(o)}
+			out = append(out, res)
+			continue
+		}
+		if v.Error != "" {
+			res.Status = "skipped"
+			res.Reported = []string{"patched tree does not load: " + firstLine(v.Error)}
+			out = append(out, res)
+			continue
+		}
+		for _, ob := range v.Obs {
+			if ob.Verdict == "violation" || ob.Verdict == "undecided" {
+				res.Reported = append(res.Reported, ob.Rule+" @ "+ob.Construct)
+			}
+		}
+		if len(res.Reported) > 0 {
+			res.Status = "killed"
+		} else {
+			res.Status = "survived"
+		}
+		if len(res.Reported) > 4 {
+			res.Reported = append(res.Reported[:4], fmt.Sprintf("… and %d more", len(res.Reported)-4))
+		}
+		out = append(out, res)
+	}
+	return out
 }
